@@ -84,6 +84,7 @@ type replayFile struct {
 	Values   []sym.NondetRec `json:"values"`
 	Detail   string          `json:"detail,omitempty"`
 	Observe  []string        `json:"observe,omitempty"`
+	Schedule []sym.SchedStep `json:"schedule,omitempty"`
 }
 
 func writeReplay(rf *replayFile) (string, error) {
@@ -132,12 +133,7 @@ func TestVerifReplay(t *testing.T) {
 		var failures []string
 		skipped := false
 		var log []string
-		for it := 0; it < iters && len(failures) == 0 && time.Now().Before(deadline); it++ {
-			if it > 0 {
-				if err := verifLoad(path); err != nil {
-					t.Fatal(err)
-				}
-			}
+		run := func() {
 			func() {
 				defer func() {
 					if r := recover(); r != nil {
@@ -151,6 +147,49 @@ func TestVerifReplay(t *testing.T) {
 			}()
 			failures, skipped, log = verifFailures, verifSkipped, verifLog
 		}
+		mode := "direct"
+		followed := false
+		if len(verifVec.Schedule) > 0 {
+			// schedule-directed replay: follow the recorded interleaving; an attempt in which a
+			// select natively took another ready case (or a goroutine did not show up) is repeated
+			mode = "schedule-directed"
+			for it := 0; it < 400 && !followed && time.Now().Before(deadline); it++ {
+				if it > 0 {
+					if err := verifLoad(path); err != nil {
+						t.Fatal(err)
+					}
+				}
+				verifSchedReset(verifVec.Schedule, true)
+				if it < 3 {
+					fmt.Printf("VERIF-REPLAY-ATTEMPT %%d (schedule-directed, %%d steps)\n", it, len(verifVec.Schedule))
+				}
+				run()
+				if !verifDeviated() {
+					followed = true
+				} else if it < 3 {
+					fmt.Printf("  deviated: %%s\n", verifDeviationReason())
+				}
+			}
+			verifSchedReset(nil, false)
+			if !followed {
+				failures, skipped = nil, false
+			}
+		}
+		if !followed {
+			if len(verifVec.Schedule) > 0 {
+				mode = "stress (the schedule could not be followed natively)"
+			}
+			deadline = time.Now().Add(20 * time.Second)
+			for it := 0; it < iters && len(failures) == 0 && time.Now().Before(deadline); it++ {
+				if it > 0 || len(verifVec.Schedule) > 0 {
+					if err := verifLoad(path); err != nil {
+						t.Fatal(err)
+					}
+				}
+				run()
+			}
+		}
+		fmt.Printf("VERIF-REPLAY-MODE %%s %%s\n", path, mode)
 		switch {
 		case len(failures) > 0:
 			fmt.Printf("VERIF-REPLAY %%s FAIL %%q\n", path, failures)
@@ -199,6 +238,13 @@ func nativeReplay(paths []string, harnesses []string) (map[string]string, string
 		return nil, "", err
 	}
 	ov[filepath.Join(repoDir, "zz_verif_replay_test.go")] = testFile
+	// schedule-directed replay: joe.go with yield points before every visible operation
+	if instr, err := instrumentVisibleOps(filepath.Join(repoDir, "joe.go")); err == nil {
+		ip := filepath.Join(tmp, "joe_instrumented.go")
+		if os.WriteFile(ip, instr, 0o644) == nil {
+			ov[filepath.Join(repoDir, "joe.go")] = ip
+		}
+	}
 	ovJSON, _ := json.Marshal(map[string]interface{}{"Replace": ov})
 	ovPath := filepath.Join(tmp, "overlay.json")
 	os.WriteFile(ovPath, ovJSON, 0o644)
@@ -442,7 +488,7 @@ func cmdCheck(args []string) int {
 	var rfiles []*replayFile
 	var harnessNames []string
 	for i, v := range allViol {
-		rf := &replayFile{Property: id, Harness: v.Harness, Label: v.Label, Expect: "fail", Params: violParams[i], Values: v.Values, Detail: v.Detail, Observe: v.Observe}
+		rf := &replayFile{Property: id, Harness: v.Harness, Label: v.Label, Expect: "fail", Params: violParams[i], Values: v.Values, Detail: v.Detail, Observe: v.Observe, Schedule: v.Sched}
 		path, err := writeReplay(rf)
 		if err != nil {
 			fmt.Fprintln(os.Stderr, err)
